@@ -350,6 +350,40 @@ def dry_run_slice() -> Tuple[int, List[Violation]]:
     return n, viols
 
 
+# ---- source-file histories: the plan is a function of what the file holds NOW -----------------------------------
+HIST_TABLES = [TABLE_XY, TABLE_XYZ3, {"x": [5, 6], "y": [7.5, 8.5]}, TABLE_XY, {"x": [1, 2, 3, 4, 5], "q": [1, 1, 2, 3, 5]}]
+
+
+def file_histories(tier: str) -> Tuple[int, List[Violation]]:
+    """One process, one path per format; the file is rewritten between expansions (same keys / other values, other keys,
+    other length, back to the first content).  Every expansion must be the documented plan of the CURRENT content, incl. the cap."""
+    d = harness.enter_scratch()
+    harness.clear_dir(d)
+    n = 0
+    viols: List[Violation] = []
+    shapes = [("csv", "rows"), ("json", "rows"), ("json", "cols"), ("yaml", "rows"), ("yaml", "cols"), ("ndjson", "rows")]
+    orders = [list(range(len(HIST_TABLES)))] + ([[1, 0, 4, 2, 3], [4, 3, 2, 1, 0]] if tier == "thorough" else [])
+    for fmt, shape in shapes:
+        for oi, order in enumerate(orders):
+            name = f"h{oi}_{shape}.{fmt}"
+            for step, ti in enumerate(order):
+                tab = HIST_TABLES[ti]
+                write_table(d, name, fmt, tab, shape)
+                tabs = {name: tab}
+                for tmpl in ({"mode": "by_position", "source": {"format": fmt, "path": name}},
+                             {"mode": "combinatorial", "context": {"k": [1, 2]}, "source": {"format": fmt, "path": name, "mode": "combinatorial"}}):
+                    size = ref.plan({"blocks": [tmpl], "max_runs": 10 ** 9}, tabs)
+                    for cap in caps_for(size[1] if size[0] == "ok" else 0):
+                        spec = {"combine": "combinatorial", "blocks": [tmpl], "max_runs": cap}
+                        n += 1
+                        bad = judge(spec, d, tabs)
+                        if bad:
+                            viols.append(Violation(f"stale-or-wrong-plan-after-source-rewrite|{bad[0]}",
+                                                   f"{name} rewritten {step} times (now {tab}); {json.dumps(spec)[:200]}: {bad[1]}",
+                                                   {"kind": "filehist", "tier": tier}))
+    return n, viols
+
+
 def check(tier: str, seed: int) -> Result:
     sp = core.seeded_order(specs(tier), seed)
     tot = 0
@@ -367,6 +401,9 @@ def check(tier: str, seed: int) -> Result:
     viols.extend(vb)
     nd, vd = dry_run_slice()
     viols.extend(vd)
+    nh, vh = file_histories(tier)
+    viols.extend(vh)
+    nd += nh
     cov = {
         "states": len(distinct), "transitions": tot, "traces_validated_against_impl": tot + nb + nd,
         "evaluations": tot + nb + nd, "distinct_nontrivial": len(distinct),
@@ -374,7 +411,7 @@ def check(tier: str, seed: int) -> Result:
                 "third-block templates x 2 combine modes, each with max_runs in {0,1,n-1,n,n+1,1000}; through the YAML loader and "
                 "expand_run_space; distinct_nontrivial = distinct accepted ordered run lists; plus cap promptness on 1e4..1e30-run specs" % (
                     len(SRC1_QUICK) + (len(SRC1_MORE) if tier == "thorough" else 3)),
-        "reference_outcomes": outcomes, "cap_promptness": notes, "dry_run_checked": nd,
+        "reference_outcomes": outcomes, "cap_promptness": notes, "dry_run_checked": nd - nh, "source_rewrite_history_expansions": nh,
         "samples": [sp[0], sp[len(sp) // 2]], "exhaustive": True,
     }
     return Result("model_checking", cov, viols, [
@@ -390,6 +427,8 @@ def replay(case) -> List[Violation]:
         write_all(d)
         bad = judge(case["spec"], d, tables())
         return [Violation(bad[0], bad[1], case)] if bad else []
+    if case["kind"] == "filehist":
+        return file_histories(case.get("tier", "quick"))[1][:1]
     if case["kind"] == "dry":
         return dry_run_slice()[1]
     return [v for v in promptness("quick")[1] if v.case.get("label") == case.get("label")]
